@@ -200,6 +200,18 @@ pub fn c11_specs(tier: Tier) -> Vec<Spec> {
         specs.push(Spec::new(true, vec![Pat::regex("(?&t)x")]).with_sub("t", "(?&s)c").with_sub("s", b));
         specs.push(Spec::new(true, vec![Pat::skip("(?&nope)"), Pat::token("q")]).with_sub("s", b));
     }
+    // sources that are only balanced once they are wrapped: not patterns by themselves, their
+    // alternation / group structure would escape the scoping group - must be compile errors
+    for b in ["x)|(?:y", "a)(b", "a)|(b", "x))((y", "a)+(b"] {
+        for u in ["(?&s)z", "w(?&s)", "(?&s)", "(?:(?&s))+q"] {
+            for utf8 in [true, false] {
+                specs.push(Spec::new(utf8, vec![Pat::regex(u)]).with_sub("s", b));
+                specs.push(Spec::new(utf8, vec![Pat::skip(u), Pat::token("q")]).with_sub("s", b));
+            }
+        }
+        specs.push(Spec::new(true, vec![Pat::regex("(?&t)k")]).with_sub("s", b).with_sub("t", "(?&s)c"));
+        specs.push(Spec::new(false, vec![Pat::regex("k(?&s)")]).with_bsub("s", b.as_bytes()));
+    }
     // flags of the USER reach into the included text (textual inclusion): ignore(case) on the
     // definition, inline flags in front of / around the reference; bodies that are sensitive to
     // them (cased letters, `.`, their own (?-i:..) / (?-s:..) groups, Kelvin sign / long s folds)
@@ -374,6 +386,10 @@ pub fn replay(a: &Args) -> Report {
         }
         "c16" | "c18" | "c19" | "tokens" | "c13cb" => return crate::tokenlevel::replay(a, &rec),
         "c17" => return crate::cli::replay(a, &rec),
+        "code" => {
+            let spec: Spec = serde_json::from_value(r["spec"].clone()).expect("spec");
+            rep.violations = crate::codecheck::replay_one(&spec, &tag);
+        }
         k => panic!("unknown replay kind {k}"),
     }
     rep
